@@ -104,6 +104,12 @@ int main(int argc, char** argv) {
 	reg<CC<16,5,true,false,false, 32,8,true,false,false>>(); reg<CC<32,8,true,false,false, 16,5,true,false,false>>();
 	reg<CC<16,8,true,false,false, 16,5,true,false,false>>(); reg<CC<16,5,true,false,false, 16,8,true,false,false>>();
 	reg<CC<12,4,true,false,false, 12,4,true,false,false>>();
+	// sources that do not fit a float (more than 8 exponent bits or more than 23 fraction bits) and wide targets
+	reg<CC<20,11,true,false,false, 32,11,true,false,false>>(); reg<CC<32,11,true,false,false, 20,11,true,false,false>>();
+	reg<CC<24,11,true,false,false, 16,11,true,false,false>>(); reg<CC<32,5,true,false,false, 40,5,true,false,false>>();
+	reg<CC<32,5,true,false,false, 30,5,true,false,false>>(); reg<CC<40,8,true,false,false, 32,8,true,false,false>>();
+	reg<CC<48,11,true,false,false, 24,8,true,false,false>>(); reg<CC<64,11,true,false,false, 32,8,true,false,false>>();
+	reg<CC<32,8,true,false,false, 64,11,true,false,false>>(); reg<CC<28,9,true,false,false, 28,6,true,true,false>>();
 #else
 	FPAIR(8, 4, 8, 2) FPAIR(8, 4, 12, 8) FPAIR(8, 0, 16, 8) FPAIR(10, 5, 6, 2) FPAIR(12, 6, 8, 6) FPAIR(16, 8, 32, 16) FPAIR(16, 12, 16, 4) FPAIR(24, 12, 12, 4)
 	IPAIR(8, 12) IPAIR(8, 16) IPAIR(9, 7) IPAIR(12, 33) IPAIR(16, 32) IPAIR(24, 17) IPAIR(32, 64) IPAIR(65, 31) IPAIR(12, 4)
